@@ -4,7 +4,9 @@
 //
 // Files: ref_test.go (reference table + allow/deny predicate, written from the documentation),
 // fixture_test.go (scratch directory, queue db, admin stand-ins, child processes, JSON-RPC session),
-// check_test.go (arguments and variants, the per-case oracle, enumeration and reporting).
+// check_test.go (arguments and variants, the per-case oracle, enumeration and reporting),
+// seq_test.go (call sequences on one long-lived server with an enumerated audit-sink behaviour),
+// crash_test.go (crash points of the config-writing tools).
 //
 // Tiers: quick = the complete table (every tool name x role input x flags x principal) with side-effect probes,
 // repeated for every argument-shape variant of the tool (~12 000 sessions, ~10 s); thorough = quick plus more
